@@ -37,6 +37,21 @@ type applyInfo struct {
 	cmpBlks  []*ssa.BasicBlock
 	defBlk   *ssa.BasicBlock // default arm
 	handlers map[string]*ssa.Function
+	// the function that loops over the operations: fn itself, or the library function that
+	// calls fn (the dispatch extracted into a helper) from inside its loop, at viaCall
+	loopFn  *ssa.Function
+	viaCall *ssa.Call
+}
+
+// dispatchSite: the instruction of the loop function that stands for the dispatch.
+func (ai *applyInfo) dispatchSite() ssa.Instruction {
+	if ai.viaCall != nil {
+		return ai.viaCall
+	}
+	if ai.kindCall != nil {
+		return ai.kindCall
+	}
+	return nil
 }
 
 func isKindCall(v ssa.Value) *ssa.Call {
@@ -141,6 +156,22 @@ func (b *Body) findApply() *applyInfo {
 		}
 		if !isCmp[ne] {
 			best.defBlk = ne
+		}
+	}
+	best.loopFn = best.fn
+	if best.kindCall != nil && innermostLoopHeader(best.kindCall.Block()) == nil {
+		// the dispatch was extracted: the loop is in the (single) library caller
+		var sites []*ssa.Call
+		for _, g := range b.srcFuncs(b.Lib) {
+			for _, ci := range callsTo(g, func(cc *ssa.CallCommon) bool { return cc.StaticCallee() == best.fn }) {
+				if call, ok := ci.(*ssa.Call); ok {
+					sites = append(sites, call)
+				}
+			}
+		}
+		if len(sites) == 1 && innermostLoopHeader(sites[0].Block()) != nil {
+			best.loopFn = sites[0].Parent()
+			best.viaCall = sites[0]
 		}
 	}
 	return best
@@ -1010,6 +1041,16 @@ func ruleRetShape(c *Ctx) {
 			}
 			key := fmt.Sprintf("apply loop: error of handler %q stops the loop", k)
 			ok, why := b.handlerErrStops(call)
+			if ai.viaCall != nil {
+				// the dispatch is a helper: the handler's error must be what the helper returns on
+				// every path from the call, and the helper's error must stop the loop
+				ok, why = b.errorIsReturned(call)
+				if ok {
+					var w2 string
+					ok, w2 = b.handlerErrStops(ai.viaCall)
+					why = why + "; in " + fname(ai.loopFn) + ": " + w2
+				}
+			}
 			v := Discharged
 			if !ok {
 				v = Violated
@@ -1767,11 +1808,11 @@ func (b *Body) checkOperationShape(l *Ledger) {
 // return, because it would report operation k+n while operation k is the
 // first one that cannot be applied.
 func (b *Body) operationOrderObligation(l *Ledger, ai *applyInfo) {
-	fn := ai.fn
+	fn := ai.loopFn
 	key := "apply: an error is only ever reported from the dispatch loop, in operation order"
 	var dispatch *ssa.BasicBlock
-	if ai.kindCall != nil {
-		dispatch = innermostLoopHeader(ai.kindCall.Block())
+	if ds := ai.dispatchSite(); ds != nil {
+		dispatch = innermostLoopHeader(ds.Block())
 	}
 	if dispatch == nil {
 		l.add("R-DISPATCH", b.Name, key, b.rel(fn.Pos()), Undecided, "the dispatch is not inside a loop", false)
@@ -1987,4 +2028,47 @@ func isCountedIndex(h *ssa.BasicBlock, idx ssa.Value, over ssa.Value) bool {
 		return false
 	}
 	return sameCollection(ln, over)
+}
+
+
+// errorIsReturned: on every path from the call to an exit of its function the error result
+// of the function is the call's own error (possibly through phis, or wrapped with %w).
+func (b *Body) errorIsReturned(call *ssa.Call) (bool, string) {
+	fn := call.Parent()
+	ei := errResultIndex(fn)
+	if ei < 0 {
+		return false, fname(fn) + " has no error result"
+	}
+	vals := map[ssa.Value]bool{call: true}
+	for _, ev := range errResultOf(call) {
+		vals[ev] = true
+	}
+	for changed := true; changed; {
+		changed = false
+		allInstrs(fn, func(i ssa.Instruction) {
+			if phi, ok := i.(*ssa.Phi); ok && !vals[phi] {
+				for _, e := range phi.Edges {
+					if vals[e] {
+						vals[phi] = true
+						changed = true
+					}
+				}
+			}
+		})
+	}
+	n := 0
+	for _, r := range returnsOf(fn) {
+		if r.Block() != call.Block() && !reachesBlock(call.Block(), r.Block()) {
+			continue
+		}
+		n++
+		rv := retVal(r, ei)
+		if !vals[rv] && !b.wrapsOneOf(rv, vals) {
+			return false, "the return at " + b.posOf(r) + " of " + fname(fn) + " does not hand on the handler's error"
+		}
+	}
+	if n == 0 {
+		return false, "no return is reachable from the handler call"
+	}
+	return true, fmt.Sprintf("the handler's error is the error result of %s on all %d return(s) reachable from the call", fname(fn), n)
 }
